@@ -186,6 +186,31 @@ def r3(cx, rec):
         rec.site(nf, st[0], 'assignment installs the state and requests (%d request calls)' % len(sc))
         rec.need(bool(sc) and ok, 'assignment-without-request', nf, st[0], 'a new piece assignment does not send a request')
     rec.need(bool(news), 'no-assignment', H, None, 'no function installs a new assembly state')
+    # the assembly state is never cleared after a (re)assignment on the same path
+    installers = {F.owner_fn(nf).path for nf in news}
+    changed = True
+    while changed:
+        changed = False
+        for f in F.user_fns():
+            o = F.owner_fn(f).path
+            if o in installers or not o.startswith('peer_handler::'):
+                continue
+            if any(t in installers for b, t in C.local_calls(F, f)):
+                installers.add(o)
+                changed = True
+    for f in F.user_fns():
+        if not f.path.startswith('peer_handler::'):
+            continue
+        clears = [bi for bi, si, s in f.stores() if access_path(f.expr_place(s['lhs'])) == 'self.piece_rx'
+                  and f.expr_rvalue(s['rv'])[0] == 'agg' and f.expr_rvalue(s['rv'])[3] == 'None']
+        clears += [bb for bb in mirq.real_calls(f) if f.expr_call(bb)[4].get('name') == 'take' and access_path(f.expr_call(bb)[2][0]) == 'self.piece_rx']
+        inst_calls = [b for b, t in C.local_calls(F, f) if t in installers]
+        for cb in clears:
+            after = [b for b in inst_calls if cb in f.reach_from(b) and b != cb]
+            rec.site(f, cb, 'assembly state cleared; calls that may install a new one before it on some path: %d' % len(after))
+            rec.need(not after, 'state-cleared-after-assignment/' + F.owner_fn(f).path, f, cb,
+                     'the assembly state is cleared after a call that may have installed a new piece assignment (and sent its first requests): '
+                     'the answers are then rejected as unexpected and no further request is sent')
 
 
 @TABLE.rule('4', 'K7', 'completion is "both queues empty"; verify/save/PieceDone only on its true edge', floor=2)
